@@ -48,11 +48,12 @@ type xnode struct {
 }
 
 var c07Calls int64
+var c07Swapped = c07CtxSwapped()
 
 func c07Ctx() pongo2.Context {
 	return pongo2.Context{
 		"i0": 0, "i1": 1, "i2": 2, "i7": 7, "in3": -3, "u8": uint8(2),
-		"f05": 0.5, "f2": 2.0, "fn15": -1.5,
+		"f05": 0.5, "f2": 2.0, "fn15": -1.5, "big": c07Big62,
 		"se": "", "sa": "a", "s1": "1",
 		"bt": true, "bf": false,
 		"li": []int{1, 2, 3}, "ls": []string{"a", "b"}, "m": map[string]int{"a": 1},
@@ -65,6 +66,19 @@ func c07Ctx() pongo2.Context {
 	}
 }
 
+// c07CtxSwapped binds the numeric variables to values of the OTHER kind (ints where the normal context has floats
+// and vice versa). Every compiled expression is evaluated once with it before the judged evaluations: what a
+// compiled node learned from earlier operands must not influence later evaluations.
+func c07CtxSwapped() pongo2.Context {
+	ctx := c07Ctx()
+	for k, v := range map[string]any{"i0": 0.0, "i1": 1.5, "i2": 2.5, "i7": 7.0, "in3": -3.5, "u8": 2.25, "f05": 1, "f2": 2, "fn15": -2,
+		"pf25": &c07pi, "pi3": &c07pf, "f32": int8(1), "i64n": -2.5, "u16": float32(5.5), "nf": c07NI(1), "ni": c07NF(4.5), "big": 3,
+		"se": 0, "sa": 1.5, "s1": 1, "bt": 1, "bf": 0.0} {
+		ctx[k] = v
+	}
+	return ctx
+}
+
 type c07NF float64
 type c07NI int
 type c07NS string
@@ -72,6 +86,7 @@ type c07NB bool
 
 var c07pf, c07pi, c07ps, c07pb = 2.5, 3, "a", true
 
+const c07Big62 = float64(1 << 62) // results around 2^63 and beyond must still print as plain six-decimal floats
 
 func leafI(t string, v int64) *xnode   { return &xnode{text: t, val: xval{k: kI, i: v}} }
 func leafF(t string, v float64) *xnode { return &xnode{text: t, val: xval{k: kF, f: v}} }
@@ -84,7 +99,7 @@ var c07FullLeaves = []*xnode{
 	leafS(`""`, ""), leafS(`"a"`, "a"), leafS(`"1"`, "1"),
 	leafB("true", true), leafB("false", false),
 	leafI("i0", 0), leafI("i2", 2), leafI("in3", -3), leafI("u8", 2),
-	leafF("f05", 0.5), leafF("fn15", -1.5),
+	leafF("f05", 0.5), leafF("fn15", -1.5), leafF("big", c07Big62),
 	leafS("sa", "a"), leafS("se", ""),
 	leafB("bt", true), leafB("bf", false),
 	{text: "li", val: xval{k: kLI, n: 3}}, {text: "ls", val: xval{k: kLS, n: 2}}, {text: "m", val: xval{k: kM, n: 1}},
@@ -166,7 +181,8 @@ func printed(v xval) string {
 	return "?"
 }
 
-const c07Big = 1e12
+const c07Big = 1e12   // integers beyond it are not judged (overflow)
+const c07BigF = 1e100 // floats beyond it are not judged
 
 func (e *xeval) eval(n *xnode) (xval, xstatus) {
 	if n.op == "" {
@@ -236,7 +252,7 @@ func (e *xeval) eval(n *xnode) (xval, xstatus) {
 		if v.k == kI && (v.i > c07Big || v.i < -c07Big) {
 			return v, stUnjudged
 		}
-		if v.k == kF && (math.IsNaN(v.f) || math.IsInf(v.f, 0) || math.Abs(v.f) > c07Big) {
+		if v.k == kF && (math.IsNaN(v.f) || math.IsInf(v.f, 0) || math.Abs(v.f) > c07BigF) {
 			return v, stUnjudged
 		}
 		return v, stOK
@@ -298,7 +314,7 @@ func (e *xeval) eval(n *xnode) (xval, xstatus) {
 			return l, stUnjudged
 		}
 		p := math.Pow(fl(l), fl(r))
-		if math.IsNaN(p) || math.IsInf(p, 0) || math.Abs(p) > c07Big {
+		if math.IsNaN(p) || math.IsInf(p, 0) || math.Abs(p) > c07BigF || (l.k == kI && r.k == kI && math.Abs(p) > c07Big) {
 			return l, stUnjudged
 		}
 		if e.powInt && l.k == kI && r.k == kI {
@@ -600,6 +616,7 @@ func c07Judge(c *C, set *pongo2.TemplateSet, ctx pongo2.Context, n *xnode, layou
 				return false
 			}
 			// the compiled expression is evaluated twice: the value of an expression does not depend on earlier evaluations
+			tpl.Execute(c07Swapped)
 			first, ferr := tpl.Execute(ctx)
 			before := atomic.LoadInt64(&c07Calls)
 			out, xerr := tpl.Execute(ctx)
